@@ -1,12 +1,15 @@
 // Differential + oracle harness for C11 (a normal .gox class file behaves like its explicit struct form).
 //
 // (a) type view: every generated class file is compiled by the real compiler (CompileDir of
-//     {C*.gox, helpers.xgo, main.xgo}); the generated Go is type-checked with go/types and the view
-//     of the class type (fields: name/type/embedded/tag; methods: receiver name/type/pointer;
-//     package-level variables from later var blocks) is compared with the model's `genType`.
+//
+//	{C*.gox, helpers.xgo, main.xgo}); the generated Go is type-checked with go/types and the view
+//	of the class type (fields: name/type/embedded/tag; methods: receiver name/type/pointer;
+//	package-level variables from later var blocks) is compared with the model's `genType`.
+//
 // (b) behaviour (property oracle): the same program written with explicit structs and
-//     `func (this *T)` methods (plain XGo, generated from the same abstract description) is
-//     compiled too; both are built and run; the output per class must be equal.
+//
+//	`func (this *T)` methods (plain XGo, generated from the same abstract description) is
+//	compiled too; both are built and run; the output per class must be equal.
 package main
 
 import (
@@ -369,7 +372,9 @@ func (g *gen) expr(m *methodDesc, typ string, depth int) *expr {
 			})
 		}
 	} else {
-		choices = append(choices, func() *expr { return &expr{op: "str", val: fmt.Sprintf("%q", []string{"a", "bc", "", "x y"}[r.Intn(4)]), typ: typ} })
+		choices = append(choices, func() *expr {
+			return &expr{op: "str", val: fmt.Sprintf("%q", []string{"a", "bc", "", "x y"}[r.Intn(4)]), typ: typ}
+		})
 		if len(g.strF) > 0 {
 			choices = append(choices, func() *expr { return &expr{op: "field", field: g.pick(g.strF), bare: bare, typ: typ} })
 			choices = append(choices, func() *expr { return &expr{op: "field", field: g.pick(g.strF), bare: bare, typ: typ} })
